@@ -501,6 +501,136 @@ def gen_faultsweep_conn(r, g, cfg, kind, tier):
             'lat': [1], 'stalls': [], 'closes': [], 'faults': faults}
 
 
+def distinct_frame(r, g, m):
+    """A frame all of whose cacheable parts are run-wide distinct - channel,
+    size, short strings, table keys, timestamp, decimal - and which carries
+    several kinds of them at once (every operation misses in every cache
+    the decoder might keep)."""
+    from sim.values import to_desc
+    import decimal
+    c = r.random()
+    table = {'k%d' % m: m * 7919, 'd%d' % m: decimal.Decimal(m).scaleb(
+        -(m % 7)), 't%d' % m: datetime.datetime.fromtimestamp(
+            1600000000 + m, tz=datetime.timezone.utc)}
+    if c < 0.5:
+        props = {'message_id': 'm%d' % m, 'correlation_id': 'c%d' % m,
+                 'timestamp': to_desc(datetime.datetime.fromtimestamp(
+                     1700000000 + m, tz=datetime.timezone.utc))}
+        if r.random() < 0.7:
+            props['headers'] = to_desc(table)
+        if r.random() < 0.3:
+            props['priority'] = m % 256
+        if r.random() < 0.3:
+            props['app_id'] = 'a%d' % (m % 97)
+        d = {'k': 'header', 'ch': m % 65536, 'body_size': m, 'props': props}
+    elif c < 0.8:
+        d = {'k': 'method', 'cls': 'Queue.Declare', 'ch': m % 65536,
+             'args': {'queue': 'q%d' % m, 'arguments': to_desc(table)}}
+    else:
+        d = {'k': 'method', 'cls': 'Basic.Deliver', 'ch': m % 65536,
+             'args': {'consumer_tag': 'ct%d' % m, 'delivery_tag': m,
+                      'exchange': 'e%d' % (m % 53),
+                      'routing_key': 'rk.%d' % m}}
+    return d
+
+
+def gen_capacity(r, g, cfg, check):
+    """Threads decoding thousands of frames with run-wide distinct values
+    so that every bounded cache the decoder might keep (per string, key,
+    header, timestamp, flag word ...) fills, reaches its capacity, flushes
+    and wraps around; the schedule advances the threads operation by
+    operation and goes lock-step (a switch every few pamqp lines) whenever
+    the state watch sees a library container within a few entries of a
+    round capacity.  Mirror runs give all threads the same frames, the
+    second thread one or two operations behind the first: what one thread
+    inserts the other one hits."""
+    nthreads = r.choice((2, 2, 2, 3))
+    per = r.choice((300, 600, 1200, 1200, 2300, 2300))
+    # same : all threads carry the very same frames (what one thread
+    #        inserts the other hits; double inserts of one key)
+    # twin : same shapes, distinct values (both threads take the same miss
+    #        paths side by side, every insert is a new entry)
+    # indep: unrelated frames
+    mode = r.choice(('same', 'same', 'twin', 'twin', 'indep'))
+    stagger = r.choice((0, 1, 1, 2)) if mode == 'same' else 0
+    g.max_str = 10
+    lists = [[] for _ in range(nthreads)]
+    for _ in range(per):
+        cfg['marker'] += 1
+        m = cfg['marker']
+        st = r.getstate()
+        lists[0].append(distinct_frame(r, g, m))
+        for t in range(1, nthreads):
+            if mode == 'same':
+                lists[t].append(lists[0][-1])
+            elif mode == 'twin' and m % 5 == 0:
+                # now and then the very same frame: one thread inserts,
+                # the others hit (shifts the phase of the twins' inserts)
+                lists[t].append(lists[0][-1])
+            elif mode == 'twin':
+                after = r.getstate()
+                r.setstate(st)
+                lists[t].append(distinct_frame(r, g, m + 1000003 * t))
+                r.setstate(after)
+            else:
+                cfg['marker'] += 1
+                lists[t].append(distinct_frame(r, g, cfg['marker']))
+    if r.random() < 0.5:
+        # repeats of recent frames: hit paths next to miss paths
+        for _ in range(per // 5):
+            k = r.randrange(1, per)
+            back = r.randint(1, 3)
+            for fl in lists:
+                fl.insert(k, fl[max(0, k - back)])
+    conns = []
+    for t in range(nthreads):
+        frames = lists[t]
+        if mode == 'same' and t:
+            frames = [{'k': 'heartbeat', 'ch': 0}] * (stagger * t) + frames
+        datas = [gen.encode_frame(d) for d in frames]
+        conns.append({'recv': r.choice('AAB'), 'frames': frames,
+                      'cuts': pick_cuts(r, datas, 'boundaries') + (
+                          pick_cuts(r, datas, 'sparse')
+                          if r.random() < 0.25 else []),
+                      'lat': [1], 'stalls': [], 'closes': [], 'faults': []})
+    # capacities of interest: only those this history can reach (every
+    # operation adds at least one entry of every kind; 'same' threads add
+    # the same entries)
+    reach = per * (1 if mode == 'same' else nthreads) * 0.9
+    cand = [c for c in (16, 32, 64, 100, 128, 128, 256, 256, 500, 512, 512,
+                        1000, 1024, 1024, 1024, 2000, 2048, 4096)
+            if c <= reach]
+    caps = set(r.sample(cand, min(len(cand), r.choice((2, 3, 4)))))
+    if 1024 <= reach and r.random() < 0.6:
+        caps.add(1024)      # by far the most popular cache size
+    caps = sorted(caps)
+    return {'world': 'A', 'check': check, 'population': 'capacity',
+            'conns': conns, 'mode': mode,
+            'explore': {'caps': caps, 'margin': r.choice((2, 3, 4)),
+                        'w': r.choice((1, 2, 2)), 'kmax': 16,
+                        'max_rounds': 4 * len(caps), 'per_cap': 4,
+                        'max_continue': 8},
+            'tail': r.choice((0, 4000, 9000)) if check == 'C08' else 0}
+
+
+def gen_soak(r, check, tier):
+    """One long single-threaded history of distinct frames (compact series
+    descriptors, expanded by a pure function at execution time)."""
+    kinds = ['flagchain', 'strings', 'keys', 'stamps', 'bodies', 'badutf8',
+             'badtag', 'deep']
+    w = {k: r.choice((0, 1, 1, 2, 4)) for k in kinds}
+    if not any(w.values()):
+        w['strings'] = 1
+    n = r.choice((6000, 12000, 20000)) if tier == 'quick' else \
+        r.choice((20000, 40000, 80000))
+    return {'world': 'A', 'check': check, 'population': 'soak',
+            'conns': [], 'no_mem_sample': True,
+            'soak': {'n': n, 'weights': w, 'a': r.randrange(1, 2**31) | 1,
+                     'b': r.randrange(2**31),
+                     'chain': r.choice((1, 3, 20, 200)),
+                     'chain_low': r.random() < 0.6}}
+
+
 MIXES = [
     (('method', 5), ('header', 2), ('body', 2), ('heartbeat', 1)),
     (('method', 1),), (('header', 1),), (('body', 1),),
@@ -557,6 +687,10 @@ def gen_trace(rng, check, population, tier='quick'):
         maxlen = 2048 if tier == 'quick' else 140000
         for _ in range(r.randint(1, 3)):
             conns.append(gen_sweep_conn(r, g, cfg, maxlen))
+    elif population == 'capacity':
+        return gen_capacity(r, g, cfg, check)
+    elif population == 'soak':
+        return gen_soak(r, check, tier)
     elif population == 'huge_threads':
         # thousands of frames with run-wide distinct channels, sizes, names
         # and timestamps in 2-3 threads that start with the same few frames:
